@@ -292,6 +292,8 @@ Ltac esteps := repeat estep1; pynorm_head.
 Ltac genv_split :=
   repeat match goal with H : genv _ |- _ => destruct H as [? ?] end.
 Ltac genv_solve := split; env_rw; first [assumption | reflexivity].
+(** side condition [lookup <name> e = Some ..] *)
+Ltac lk := env_rw; reflexivity.
 
 (** * The link: ScriptedIntf.read *)
 Lemma norm_index_0 n : norm_index (S n) 0 = Some O.
@@ -355,6 +357,39 @@ Definition acc_b : stmts := Eval cbv in snd (the_while hdr_b).
 Definition fill_c : expr := Eval cbv in fst (the_while (f_body CommHandler__read_frame)).
 Definition fill_b : stmts := Eval cbv in snd (the_while (f_body CommHandler__read_frame)).
 
+(** ** The local variables the invariants speak about, computed from the ASTs
+    (never written as literals: renaming a local of comm.py must not break the
+    proofs).  The invariants constrain the environment by look-up equations for
+    these names only; which other locals exist, and in which order they were
+    bound, is left open. *)
+Definition param0 (f : func) : string :=
+  match f_params f with (x, _) :: _ => x | [] => "" end.
+(** the variable of the first plain assignment [x = ...] of a block *)
+Fixpoint first_assigned (ss : stmts) : string :=
+  match ss with
+  | Snil => ""
+  | Scons (SAssign (TName x) _) _ => x
+  | Scons _ r => first_assigned r
+  end.
+(** the variables of the first tuple assignment [a, b = ...] of a block *)
+Fixpoint first_pair (ss : stmts) : string * string :=
+  match ss with
+  | Snil => ("", "")
+  | Scons (SAssign (TNames [a; b]) _) _ => (a, b)
+  | Scons _ r => first_pair r
+  end.
+
+(** _read_hdr: [self]; the buffer ([_bytes = self._prev_read], first statement of [while True]) *)
+Definition v_self : string := Eval cbv in param0 CommHandler__read_hdr.
+Definition v_buf : string := Eval cbv in first_assigned hdr_b.
+(** _read_frame: [self]; [hdr, _bytes = self._read_hdr()] *)
+Definition v_fself : string := Eval cbv in param0 CommHandler__read_frame.
+Definition v_fhdr : string := Eval cbv in fst (first_pair (f_body CommHandler__read_frame)).
+Definition v_fbuf : string := Eval cbv in snd (first_pair (f_body CommHandler__read_frame)).
+
+(** the names as literals, for the look-up rewriting (which is syntactic) *)
+Ltac names := cbv delta [v_self v_buf v_fself v_fhdr v_fbuf] in *.
+
 (** * The accumulation loop of _read_hdr *)
 
 (** [HX : while_loop .. (S k) e = <one iteration run to the end>]: a result, or
@@ -369,18 +404,19 @@ Ltac loop_iter HX :=
 
 Lemma acc_loop n lf : forall l k p0 buf e,
   (List.length l < k)%nat -> genv e ->
-  lookup "self" e = Some (ch p0 l) -> lookup "_bytes" e = Some (PBytes buf) ->
+  lookup v_self e = Some (ch p0 l) -> lookup v_buf e = Some (PBytes buf) ->
   exists e', genv e' /\
     match Reasm.accumulate (S (List.length l)) 4 buf l with
     | (None, b', l') =>
         while_loop program (call_func program (S n)) lf acc_c acc_b k e =
           PyLite.Ok (ORet (PTuple [PNone; PNone]) e') /\
-        lookup "self" e' = Some (ch b' l')
+        lookup v_self e' = Some (ch b' l')
     | (Some b', _, l') =>
         while_loop program (call_func program (S n)) lf acc_c acc_b k e = PyLite.Ok (ONorm e') /\
-        lookup "self" e' = Some (ch p0 l') /\ lookup "_bytes" e' = Some (PBytes b')
+        lookup v_self e' = Some (ch p0 l') /\ lookup v_buf e' = Some (PBytes b')
     end.
 Proof.
+  names.
   induction l as [|c r IH]; intros k p0 buf e Hk Hg Hs Hb; genv_split;
     (destruct k as [|k]; [cbn [List.length] in Hk; lia|]);
     rewrite accumulate_S; cbn [List.length] in *;
@@ -403,14 +439,15 @@ Qed.
 (** * The fill loop of _read_frame *)
 Lemma fill_loop n lf fid flen err : forall l k p0 buf e,
   (List.length l < k)%nat -> genv e ->
-  lookup "self" e = Some (ch p0 l) -> lookup "_bytes" e = Some (PBytes buf) ->
-  lookup "hdr" e = Some (hdr_obj fid flen err) ->
+  lookup v_fself e = Some (ch p0 l) -> lookup v_fbuf e = Some (PBytes buf) ->
+  lookup v_fhdr e = Some (hdr_obj fid flen err) ->
   exists e', genv e' /\
     while_loop program (call_func program (S n)) lf fill_c fill_b k e = PyLite.Ok (ONorm e') /\
-    lookup "self" e' = Some (ch p0 (snd (Reasm.fill (S (List.length l)) flen buf l))) /\
-    lookup "_bytes" e' = Some (PBytes (fst (Reasm.fill (S (List.length l)) flen buf l))) /\
-    lookup "hdr" e' = Some (hdr_obj fid flen err).
+    lookup v_fself e' = Some (ch p0 (snd (Reasm.fill (S (List.length l)) flen buf l))) /\
+    lookup v_fbuf e' = Some (PBytes (fst (Reasm.fill (S (List.length l)) flen buf l))) /\
+    lookup v_fhdr e' = Some (hdr_obj fid flen err).
 Proof.
+  names.
   induction l as [|c r IH]; intros k p0 buf e Hk Hg Hs Hb Hh; genv_split;
     (destruct k as [|k]; [cbn [List.length] in Hk; lia|]);
     rewrite fill_S; cbn [List.length] in *;
@@ -447,24 +484,24 @@ Definition emb_hdr_out (pl : bytes) (ll : Reasm.link) (o : Reasm.hdr_out) : PyLi
 (** what [call_func] keeps of the outcome of a body *)
 Definition obs (r : PyLite.res out) : PyLite.res (pv * option pv) :=
   match r with
-  | PyLite.Ok (ONorm e') => PyLite.Ok (PNone, lookup "self" e')
-  | PyLite.Ok (ORet v e') => PyLite.Ok (v, lookup "self" e')
+  | PyLite.Ok (ONorm e') => PyLite.Ok (PNone, lookup v_self e')
+  | PyLite.Ok (ORet v e') => PyLite.Ok (v, lookup v_self e')
   | PyLite.Ok (OBrk _) | PyLite.Ok (OCont _) => Unsupported "break outside loop"
   | Exc c => Exc c
-  | ExcS c e' => ExcS c (match lookup "self" e' with Some v => self_st v | None => [] end)
+  | ExcS c e' => ExcS c (match lookup v_self e' with Some v => self_st v | None => [] end)
   | Fuel => Fuel
   | Unsupported w => Unsupported w
   end.
 
 Lemma hdr_loop n lf : forall f k p l e,
   (Reasm_proofs.nbytes p l < f)%nat -> (f <= k)%nat -> (List.length l < lf)%nat ->
-  genv e -> lookup "self" e = Some (ch p l) ->
+  genv e -> lookup v_self e = Some (ch p l) ->
   obs (while_loop program (call_func program (S (S n))) lf hdr_c hdr_b k e) =
   emb_hdr_out (hdr_prev f p l) (hdr_rest f p l) (Reasm.read_hdr f p l).
 Proof.
   induction f as [|f IH]; intros k p l e Hf Hk Hl Hg Hs; [lia|].
   destruct k as [|k]; [lia|]. genv_split.
-  rewrite read_hdr_S, hdr_prev_S, hdr_rest_S, while_loop_S. unfold obs, hdr_c, hdr_b.
+  rewrite read_hdr_S, hdr_prev_S, hdr_rest_S, while_loop_S. unfold obs, hdr_c, hdr_b. names.
   esteps.
   lazymatch goal with
   | |- ?L = _ =>
@@ -472,7 +509,8 @@ Proof.
       lazymatch h with
       | while_loop _ _ _ _ _ _ ?e1 =>
           destruct (acc_loop (S n) lf l lf p p e1) as (e' & Hg' & HI);
-            [lia | genv_solve | env_rw; reflexivity | env_rw; reflexivity |];
+            [lia | genv_solve | names; lk | names; lk |];
+          names;
           destruct (Reasm.accumulate (S (List.length l)) 4 p l) as [[[buf|] bx] l'] eqn:EA;
           [ destruct HI as (HW & Hs' & Hb'); fast_rw h (PyLite.Ok (ONorm e')) ltac:(exact HW)
           | destruct HI as (HW & Hs'); fast_rw h (PyLite.Ok (ORet (PTuple [PNone; PNone]) e')) ltac:(exact HW) ]
@@ -555,14 +593,18 @@ Proof.
       let h := head_of L in
       lazymatch h with
       | while_loop _ (call_func _ (S ?m)) ?lf _ _ ?k ?e1 =>
+          let xs := eval cbv in v_fself in
+          let xb := eval cbv in v_fbuf in
+          let xh := eval cbv in v_fhdr in
           lazymatch e1 with
-          | context [("self", ch ?pp ?ll)] =>
+          | context [(xs, ch ?pp ?ll)] =>
           lazymatch e1 with
-          | context [("_bytes", PBytes ?bb)] =>
+          | context [(xb, PBytes ?bb)] =>
           lazymatch e1 with
-          | context [("hdr", PObj "DParseHdr" [("fid", ?fidv); ("flen", PInt ?fl); ("err", ?er)])] =>
+          | context [(xh, PObj "DParseHdr" [("fid", ?fidv); ("flen", PInt ?fl); ("err", ?er)])] =>
               destruct (fill_loop m lf fidv fl er ll k pp bb e1) as (e' & Hg' & HW & Hs' & Hb' & Hh');
                 [lia | split; reflexivity | reflexivity | reflexivity | reflexivity |];
+              names;
               pose proof (fill_inv (S (List.length ll)) fl bb ll) as Hfl;
               destruct (Reasm.fill (S (List.length ll)) fl bb ll) as [b2 l2] eqn:EF;
               cbn [fst snd] in Hs', Hb';
